@@ -288,6 +288,23 @@ func verifHasBraceExp(w *syntax.Word) bool {
 }
 
 func verifBraceWord(n int) string {
+	if n < 0 {
+		// a sequence expression {A..B} or {A..B..S}: one-character ends with an
+		// optional minus sign, step of one digit with an optional sign
+		signs := [...]string{"", "-", "+"}
+		end := func(id string) string {
+			p := verifString(id, 1)
+			verifAssume(verifInSet(p[0], "0139az"))
+			return signs[verifChoice(id+"sign", 2)] + p
+		}
+		w := "x{" + end("a") + ".." + end("b")
+		if verifBool("step") {
+			p := verifString("s", 1)
+			verifAssume(verifInSet(p[0], "0123"))
+			w += ".." + signs[verifChoice("ssign", 3)] + p
+		}
+		return w + "}y"
+	}
 	s := verifString("w", n)
 	alpha := "{},.\\ab10-"
 	if verifParam("alpha") == 1 {
